@@ -1,3 +1,126 @@
+import Cello.Threads
+import CelloGen.Exn
 import Driver.Common
-/- driver for engine `thr` — stub, replaced when the engine is built -/
-def main (_args : List String) : IO Unit := IO.println "O not-implemented"
+/- driver for engine `thr` (C13).  Op file (shared with harness/h_thr.c):
+
+     M sched|free          mode: `sched` = the harness replays exactly this interleaving (baton); `free` = real concurrency
+     N <workers>           worker threads 1..N (tid 0 = main)
+     <tid> <op> <args…>    one event of the schedule, executed by thread <tid>
+
+   The model executes the events in file order (one particular schedule).  In `free` mode the outcomes of the
+   synchronisation events depend on the real schedule and are masked (`sync`) on both sides; the outcomes of local
+   operations do not (theorem C13_noninterference), so they are compared in every mode. -/
+open Cello.Thr Cello
+
+/-- declared classes of the harness's probe types (h_thr.c `ProbeA`, `ProbeB`, `ProbeC`): ty × cls ↦ implemented?
+    classes: 0 New, 1 Cmp, 2 Hash, 3 Len, 4 Mark, 5 Assign, 6 Size, 7 Alloc (all cached slots of Type_Instance) -/
+def declared (k : Nat × Nat) : Bool :=
+  match k with
+  | (0, 0) => true                                   -- ProbeA: New
+  | (1, 0) | (1, 1) | (1, 2) => true                 -- ProbeB: New Cmp Hash
+  | (2, 1) | (2, 3) | (2, 5) => true                 -- ProbeC: Cmp Len Assign
+  | _ => false
+
+def cfg : Cfg := { consume := CelloGen.Exn.catchConsumes, maxDepth := CelloGen.Exn.maxDepth, scan := declared }
+
+def parseErrno : String → Option Errno
+  | "0" => some .zero | "EINVAL" => some .einval | "EDEADLK" => some .edeadlk | "EBUSY" => some .ebusy
+  | "EPERM" => some .eperm | "ESRCH" => some .esrch | "EAGAIN" => some .eagain | _ => none
+
+def parsePFn : String → Option PFn
+  | "lock" => some .lock | "trylock" => some .trylock | "unlock" => some .unlock | "join" => some .join | _ => none
+
+def nats (ws : List String) : Option (List Nat) := ws.mapM (·.toNat?)
+
+/-- (event, op name, is-sync) -/
+def parseEv (l : String) : Option (Ev × String × Bool) :=
+  match Driver.words l with
+  | ts :: op :: args =>
+    match ts.toNat? with
+    | none => none
+    | some t =>
+      let loc (o : LOp) : Option (Ev × String × Bool) := some (.loc t o, op, false)
+      let syn (e : Ev) : Option (Ev × String × Bool) := some (e, op, true)
+      let lt (s : String) (lim : Nat) : Option Nat := if s.length < 8 then s.toNat?.bind (fun n => if n < lim then some n else none) else none
+      let okKey (k : String) : Bool := k.length < 60
+      if t ≥ 65 then none else
+      match op, args with
+      | "begin", [] => if t = 0 then none else loc .begin_
+      | "end", [] => if t = 0 then none else loc .end_
+      | "new", [k] => (lt k 512).bind fun k => loc (.new k false)
+      | "newroot", [k] => (lt k 512).bind fun k => loc (.new k true)
+      | "del", [u, k] => match lt u 65, lt k 512 with
+        | some u, some k => loc (.del ⟨u, k⟩) | _, _ => none
+      | "gc", ks => (ks.mapM (lt · 512)).bind fun ks => loc (.collect ks)
+      | "churn", [n] => (lt n 5001).bind fun n => loc (.churn n)
+      | "tset", [key, u, k] => match okKey key, lt u 65, lt k 512 with
+        | true, some u, some k => loc (.tset key ⟨u, k⟩) | _, _, _ => none
+      | "tget", [key] => if okKey key then loc (.tget key) else none
+      | "tmem", [key] => if okKey key then loc (.tmem key) else none
+      | "trem", [key] => if okKey key then loc (.trem key) else none
+      | "x", _ :: _ =>
+        -- the program text is everything after "<tid> x "
+        let rest := ((l.splitOn " x ").drop 1)
+        match Exn.parse (" x ".intercalate rest) with
+        | some p => loc (.exn (.tryCatch p [] (.stmt 999)))
+        | none => none
+      | "lookup", [a, b] => match lt a 3, lt b 8 with
+        | some a, some b => loc (.lookup a b) | _, _ => none
+      | "pub", [v] => (lt v 1000000).bind fun v => loc (.pub v)
+      | "perr", [f, e] => match parsePFn f, parseErrno e with
+        | some f, some e => loc (.perr f e) | _, _ => none
+      | "work", [a, b, c] => match lt a 4, lt b 1000000, lt c 1000000 with
+        | some a, some b, some c => loc (.work a b c) | _, _, _ => none
+      | "spawn", [u] => (lt u 65).bind fun u => if u = 0 then none else syn (.spawn t u)
+      | "join", [u] => (lt u 65).bind fun u => if u = 0 then none else syn (.join t u)
+      | "lock", [m] => (lt m 16).bind fun m => syn (.lock t m)
+      | "enter", [m] => (lt m 16).bind fun m => syn (.lock t m)
+      | "trylock", [m] => (lt m 16).bind fun m => syn (.trylock t m)
+      | "unlock", [m] => (lt m 16).bind fun m => syn (.unlock t m)
+      | "leave", [m] => (lt m 16).bind fun m => syn (.unlock t m)
+      | "winc", [m, c] => match lt m 16, lt c 16 with
+        | some m, some c => syn (.winc t m c) | _, _ => none
+      | "ld", [c] => (lt c 16).bind fun c => syn (.ld t c)
+      | "st", [c] => (lt c 16).bind fun c => syn (.st t c)
+      | "rd", [u] => (lt u 65).bind fun u => syn (.rd t u)
+      | _, _ => none
+  | _ => none
+
+def maxTid : Nat := 64
+def maxMutex : Nat := 16
+
+def main (args : List String) : IO Unit := do
+  let lines ← Driver.inputLines args
+  let mut free := false
+  let mut g := G.init
+  let mut idx := 0
+  let mut tr : Array (Ev × Out) := #[]
+  let mut nLocal := 0
+  let mut nSync := 0
+  let mut nBlocked := 0
+  for l in lines do
+    if Driver.isSkippable l then continue
+    if l.startsWith "M " then
+      free := (l.drop 2).toString.trimAscii.toString = "free"
+      continue
+    if l.startsWith "N " || l.startsWith "S " then continue
+    match parseEv l with
+    | none => IO.println "O bad-op"
+    | some (e, name, sync) =>
+      let (g', o) := step cfg g e
+      g := g'
+      tr := tr.push (e, o)
+      if sync then nSync := nSync + 1 else nLocal := nLocal + 1
+      if notExecuted o then nBlocked := nBlocked + 1
+      let shown := if free && sync then "sync" else o.show
+      IO.println s!"O {idx} {e.tid} {name} {shown}"
+      idx := idx + 1
+  -- the trace predicates of the theorems, evaluated on this schedule
+  let trl := tr.toList
+  let mut exclOK := true
+  for m in List.range maxMutex do
+    let holders := (List.range (maxTid + 1)).filter (fun t => inside t m trl > 0)
+    if holders.length > 1 then exclOK := false
+    for t in List.range (maxTid + 1) do
+      if inside t m trl > 1 || inside t m trl < 0 then exclOK := false
+  IO.println s!"S events={idx} local={nLocal} sync={nSync} not-executed={nBlocked} noUB={noUB trl} exclusion={exclOK}"
